@@ -73,6 +73,7 @@ func main() {
 	replayDir := flag.String("replays", "/verif/replays", "replay dir")
 	known := flag.String("known", "/verif/known_findings.txt", "known findings")
 	replay := flag.String("replay", "", "replay a stored case")
+	rounds := flag.Int("rounds", 1, "how many times the generators run, each with a PRNG forked from the seed (thorough tier)")
 	flag.Parse()
 
 	if *replay != "" {
@@ -112,7 +113,14 @@ func main() {
 			genModel = gm
 			defer gm.Close()
 		}
-		runCases(pool, workers, func(emit func(Case)) { pd.streams(ctx, emit) }, st)
+		runCases(pool, workers, func(emit func(Case)) {
+			for round := 0; round < *rounds; round++ {
+				if round > 0 {
+					ctx.R = prng.New(uint64(*seed)*1000003 + hashStr(*prop) + uint64(round)*0x9e3779b97f4a7c15)
+				}
+				pd.streams(ctx, emit)
+			}
+		}, st)
 		pool.Close()
 	} else {
 		// implementation-only: evaluate the property predicates directly
@@ -204,6 +212,7 @@ func main() {
 		"distinct_nontrivial":       len(st.distinct),
 		"rule":                      "correspondence: each case is one input given to the real code and to the compiled Lean model; distinct = distinct (stream, request line) hashes among cases not marked trivial by their generator (rejected before reaching the modelled logic)",
 		"streams":                   st.ByStream,
+		"generator_rounds":          *rounds,
 		"branches":                  topBranches(st.ByBranch, 40),
 		"unmodelled":                st.Unmodelled,
 		"disagreements":             len(st.Disagreements),
